@@ -519,6 +519,24 @@ func c17fields(c *ctx, d *c17def, verbose bool) {
 		c.res.Fail("oracle", caseLine, fmt.Sprintf("%s: GetPlatformType() = %q, loaded as %q", d.label(), p.GetPlatformType(), c17stem(d.file)),
 			"platform-type-differs:"+d.label())
 	}
+	// the getter of the other driver type reports a platform error
+	if d.kind == "network" || d.kind == "generic" {
+		var werr error
+		if d.kind == "network" {
+			_, werr = p.GetGenericDriver()
+		} else {
+			_, werr = p.GetNetworkDriver()
+		}
+		c.res.Count("wrong-getter")
+		if werr == nil || !errors.Is(werr, util.ErrPlatformError) {
+			c.res.Fail("oracle", caseLine, fmt.Sprintf("%s declares a %s driver; the getter of the other type returned err=%v, expected ErrPlatformError", d.label(), d.kind, werr),
+				"wrong-driver-getter:"+d.label())
+		}
+	}
+	// the asset is also found under its file name
+	if pf, err, pmsg := c17new(d.file, d.variant, c17baseOpts(sim.NewPipe())...); err != nil || pmsg != "" || c17platformCanon(pf) != d.canon {
+		c.res.Fail("oracle", caseLine, fmt.Sprintf("%s: loading by file name %q: err=%v panic=%q or sections differ", d.label(), d.file, err, pmsg), "load-by-file-name:"+d.label())
+	}
 	if d.kind != "network" {
 		return
 	}
@@ -1738,6 +1756,9 @@ func runC17(c *ctx) {
 				mode, _ := strconv.Atoi(f[3])
 				c17history(c, defs, d, mode, true, true)
 			}
+		case len(f) == 2 && f[0] == "c17user":
+			sd, _ := strconv.ParseUint(f[1], 10, 64)
+			c17user(c, []uint64{sd}, true)
 		case len(f) == 2 && f[0] == "c17graph":
 			sd, _ := strconv.ParseUint(f[1], 10, 64)
 			c17graph(c, []uint64{sd}, true)
@@ -1749,7 +1770,11 @@ func runC17(c *ctx) {
 		}
 		return
 	}
-	// 1. advertised names load
+	// 1. advertised names load; the list the library returns is the list the translator extracted
+	if got := platform.GetPlatformNames(); strings.Join(got, ",") != strings.Join(adv, ",") {
+		c.res.Fail("correspondence", "c17names", fmt.Sprintf("platform.GetPlatformNames() = %q, generated `advertised` = %q", got, adv), "advertised-names-differ")
+	}
+	c.res.Case("c17names", true)
 	for _, n := range adv {
 		c17load(c, n, false)
 	}
@@ -1827,6 +1852,17 @@ func runC17(c *ctx) {
 			c17history(c, defs, d, mode, withSession, false)
 		}
 	}
+	// 4c. user-supplied definitions (bytes / file / URL, both driver types, every option kind, all
+	// on-X operation kinds), driven against their own device
+	ru := c.rng.Fork()
+	var useeds []uint64
+	for sd := uint64(0); sd < 48; sd++ { // the enumerated malformed cases
+		useeds = append(useeds, sd)
+	}
+	for i := 0; i < c.n(160, 1500); i++ {
+		useeds = append(useeds, ru.U64()>>1)
+	}
+	c17user(c, useeds, false)
 	// 5. random definitions / variants
 	r := c.rng.Fork()
 	var seeds []uint64
